@@ -479,6 +479,11 @@ def replay(data):
     return ORACLES[r['oracle']](r['input']) is None
 
 
+from . import c18_upgrade as U   # noqa: E402  (upgrade drivers: second part of the check)
+ORACLES.update(U.ORACLES)
+MODEL_MAP += U.MODEL_MAP
+
+
 # =====================================================================================
 def run(ctx):
     import pyipmi.errors as E
@@ -739,11 +744,14 @@ def run(ctx):
         fails[r[0]] = C.Violation(key=r[0], what=r[1] + ' [history of %d image(s)]' % len(seq),
                                   replay={'oracle': 'image_seq', 'input': {'calls': seq}})
 
+    # ------------------------------------------------------------------ upgrade drivers
+    U.stage(ctx, add, oracle, D, res)
+
     # spread the long cases over the shards (fixed permutation), map the verdicts back
     import random
     perm = list(range(len(terms)))
     random.Random(18).shuffle(perm)
-    failing, errors = C.coq_cases('C18', 'Lib.Prog Model.HpmImage Model.HpmUpload Model.HpmDevice Corr.C18',
+    failing, errors = C.coq_cases('C18', 'Lib.Prog Model.HpmImage Model.HpmUpload Model.HpmDevice Model.HpmUpgrade Model.HpmUpgradeSpec Corr.C18',
                                   [terms[i] for i in perm], shard=max(40, len(terms) // 48 + 1))
     failing = sorted(perm[i] for i in failing)
     res.mismatches = [{'case': meta[i], 'term': terms[i][:1500]} for i in failing[:50]]
